@@ -69,7 +69,7 @@ fn ansi_to_ansi_color(color: anstyle::AnsiColor) -> (ansi_term::Color, bool) {
         anstyle::AnsiColor::BrightRed => (ansi_term::Color::Red, true),
         anstyle::AnsiColor::BrightGreen => (ansi_term::Color::Green, true),
         anstyle::AnsiColor::BrightYellow => (ansi_term::Color::Yellow, true),
-        anstyle::AnsiColor::BrightBlue => (ansi_term::Color::Black, true),
+        anstyle::AnsiColor::BrightBlue => (ansi_term::Color::Blue, true),
         anstyle::AnsiColor::BrightMagenta => (ansi_term::Color::Purple, true),
         anstyle::AnsiColor::BrightCyan => (ansi_term::Color::Cyan, true),
         anstyle::AnsiColor::BrightWhite => (ansi_term::Color::White, true),
